@@ -539,18 +539,20 @@ void SQuIDS::Evolve(double dt){
     }
     
     gsl_odeiv2_driver_free(d);
-    if( gsl_status != GSL_SUCCESS ){
-      throw std::runtime_error("SQUIDS::Evolve: Error in GSL ODE solver ("
-                               +std::string(gsl_strerror(gsl_status))+")");
-    }
     
-    //after evolving, make estate alias state again
+    //after evolving, make estate alias state again; also when the integration
+    //failed, since estate may refer to a buffer which died with the driver
     SQUIDS_VERIF_EVENT(EV_REALIAS,0,0);
     for(unsigned int ei = 0; ei < nx; ei++){
       for(unsigned int i=0;i<nrhos;i++)
         estate[ei].rho[i].SetBackingStore(&(system[ei*size_state+i*size_rho]));
       if(nscalars>0)
         estate[ei].scalar=&(system[ei*size_state+nrhos*size_rho]);
+    }
+    
+    if( gsl_status != GSL_SUCCESS ){
+      throw std::runtime_error("SQUIDS::Evolve: Error in GSL ODE solver ("
+                               +std::string(gsl_strerror(gsl_status))+")");
     }
   }else{
     t+=dt;
